@@ -8,7 +8,9 @@ tokens:  `vm=<view merge>`  `+<dt>`
          `<t>:n`  enter held   `<t>:x`  leave   `<t>:X`  leave by exception
          `<t>:r:<ty>:<merge>:<val>`   `<t>:l:<d|i|w|e>:<0|1>:<fmt>:<args>`
          `<t>:s` ctx.spawn   `<t>:c` create_task   `<t>:e` task ends   `<t>:k` task cancelled from outside
-         block kind `d` = async with a disposable whose `__aexit__` raises
+         block kind `d` = async with a disposable whose `__aexit__` raises; with `o` also `r` (disposable raises in
+         `__aenter__`) and `g` (disposable waits on a gate in `__aenter__`; `<t>:G` opens the gate)
+         `<t>:T` ctx.scope(..) attempted in a thread without event loop (RuntimeError, no effect)
 strings: `_` stands for a space; args: comma separated `i<nat>` / `s<chars>`.
 Every case is followed by a fixed final phase: the clock advances by 5. -/
 namespace Driver.ScopeRun
@@ -78,6 +80,8 @@ def parseTok (tok : String) : Option (Ev × Option Cb) :=
   | t :: op :: rest => do
     let t ← t.toNat?
     match op, rest with
+    | "o", "r" :: cb :: sp => do pure (.openFailing t (← parseSpec sp), some (← parseCb cb))
+    | "o", "g" :: cb :: sp => do pure (.openGated t (← parseSpec sp), some (← parseCb cb))
     | "o", k :: cb :: sp => do
       let (a, d) ← parseKind k
       pure (.openScope t a d (← parseSpec sp), some (← parseCb cb))
@@ -97,6 +101,8 @@ def parseTok (tok : String) : Option (Ev × Option Cb) :=
     | "c", [] => pure (.spawn t false, none)
     | "e", [] => pure (.finishTask t, none)
     | "k", [] => pure (.cancel t, none)
+    | "G", [] => pure (.release t, none)
+    | "T", [] => pure (.threadCtor t, none)
     | _, _ => none
   | _ => none
 
